@@ -197,6 +197,7 @@ func checkC11(r *core.Result) {
 	r.Floor("MsgType switches", len(switches), 3)
 	checkRegions(r, prog, root, regs)
 	checkMsgSwitches(r, prog, root, switches, map[string]bool{"Reset": true})
+	checkResetAndCache(r, prog, root)
 	// D10: reflect.TypeOf(nil interface) is a nil reflect.Type: method calls on such a value need a nil test
 	checkReflectTypeNil(r, prog, root)
 	// D9: Marshal / Unmarshal / Size probes
@@ -444,4 +445,154 @@ func checkReflectTypeNil(r *core.Result, prog *core.Program, pk *packages.Packag
 		})
 	}
 	r.Counts["method calls on reflect.Type values"] = n
+}
+
+// checkResetAndCache (D11, D6c, D4b): the remaining dispatch decisions that are single comparisons.
+func checkResetAndCache(r *core.Result, prog *core.Program, pk *packages.Package) {
+	info := pk.TypesInfo
+	// D11: Reset = own Reset() method if present; else the v2 runtime's Reset for v2 messages; else the documented panic
+	if f := core.FindFunc(pk, "Reset"); f != nil && f.Decl != nil {
+		body := f.Decl.Body.List
+		ok0, ok1, okEnd := false, false, false
+		if len(body) >= 3 {
+			if is, ok := body[0].(*ast.IfStmt); ok {
+				if as, ok := is.Init.(*ast.AssignStmt); ok && len(as.Lhs) == 2 {
+					okID, _ := as.Lhs[1].(*ast.Ident)
+					vID, _ := as.Lhs[0].(*ast.Ident)
+					condID, _ := is.Cond.(*ast.Ident)
+					callsReset := false
+					ast.Inspect(is.Body, func(n ast.Node) bool {
+						if c, ok := n.(*ast.CallExpr); ok {
+							if se, ok := c.Fun.(*ast.SelectorExpr); ok && se.Sel.Name == "Reset" {
+								if id, ok := se.X.(*ast.Ident); ok && vID != nil && info.Uses[id] == info.Defs[vID] {
+									callsReset = true
+								}
+							}
+						}
+						return true
+					})
+					ok0 = okID != nil && condID != nil && info.Uses[condID] == info.Defs[okID] && callsReset && returnsAnything(is.Body.List)
+				}
+			}
+			if is, ok := body[1].(*ast.IfStmt); ok && is.Init == nil {
+				if b, ok := is.Cond.(*ast.BinaryExpr); ok && b.Op == token.EQL && strings.HasSuffix(types.ExprString(b.Y), "MessageTypeGoogle") && strings.Contains(types.ExprString(b.X), "MsgType(") {
+					calls := false
+					ast.Inspect(is.Body, func(n ast.Node) bool {
+						if c, ok := n.(*ast.CallExpr); ok {
+							if fn := staticCallee(info, c); fn != nil && fn.Name() == "Reset" {
+								if fam, ok := calleeFamily(fn); ok && fam == "v2" {
+									calls = true
+								}
+							}
+						}
+						return true
+					})
+					ok1 = calls && returnsAnything(is.Body.List)
+				}
+			}
+			if es, ok := body[len(body)-1].(*ast.ExprStmt); ok {
+				if c, ok := es.X.(*ast.CallExpr); ok {
+					if id, ok := c.Fun.(*ast.Ident); ok && id.Name == "panic" {
+						okEnd = true
+					}
+				}
+			}
+		}
+		r.Ob("D11", "Reset :: a message with its own Reset() method is reset through it", prog.Pos(f.Pos()), ok0, "the first statement must be `if r, ok := m.(interface{ Reset() }); ok { r.Reset(); return }`")
+		r.Ob("D11", "Reset :: other Google v2 messages are reset by the v2 runtime", prog.Pos(f.Pos()), ok1, "the second statement must be `if MsgType(m) == MessageTypeGoogle { proto.Reset(…); return }`")
+		r.Ob("D11", "Reset :: anything else reaches the documented panic", prog.Pos(f.Pos()), okEnd && len(body) == 3, "Reset must consist of the two probes and the documented panic")
+	} else {
+		r.Fail("anchor", "Reset", "", "function not found")
+	}
+	// D6c: a value loaded from the classification cache is used only when the load reported a hit
+	if f := core.FindFunc(pk, "MsgType"); f != nil && f.Decl != nil {
+		n := 0
+		parents := parentMap(f.Decl.Body)
+		ast.Inspect(f.Decl.Body, func(nn ast.Node) bool {
+			as, ok := nn.(*ast.AssignStmt)
+			if !ok || len(as.Lhs) != 2 || len(as.Rhs) != 1 {
+				return true
+			}
+			c, ok := as.Rhs[0].(*ast.CallExpr)
+			if !ok {
+				return true
+			}
+			se, ok := c.Fun.(*ast.SelectorExpr)
+			if !ok || (se.Sel.Name != "Load" && se.Sel.Name != "LoadOrStore") {
+				return true
+			}
+			vID, _ := as.Lhs[0].(*ast.Ident)
+			okID, _ := as.Lhs[1].(*ast.Ident)
+			if vID == nil || okID == nil {
+				return true
+			}
+			vObj, okObj := info.Defs[vID], info.Defs[okID]
+			ast.Inspect(f.Decl.Body, func(m ast.Node) bool {
+				id, ok := m.(*ast.Ident)
+				if !ok || info.Uses[id] != vObj {
+					return true
+				}
+				n++
+				guarded := false
+				for cur := ast.Node(id); cur != nil; cur = parents[cur] {
+					if is, ok := parents[cur].(*ast.IfStmt); ok && is.Body == cur {
+						if cid, ok := is.Cond.(*ast.Ident); ok && info.Uses[cid] == okObj {
+							guarded = true
+						}
+					}
+				}
+				r.Ob("D6c", "MsgType :: the cached classification is used only on a cache hit", prog.Pos(id.Pos()), guarded, "the value returned by the cache lookup is used outside `if "+okID.Name+" { … }`: on a miss it is nil (the assertion panics) or a stale placeholder")
+				return true
+			})
+			return true
+		})
+		r.Floor("uses of the cached classification", n, 1)
+	}
+	// D4b: the two single-comparison decisions of deduceMsgType
+	if f := core.FindFunc(pk, "deduceMsgType"); f != nil && f.Decl != nil {
+		nonPtr, gogoReg := false, false
+		ast.Inspect(f.Decl.Body, func(nn ast.Node) bool {
+			is, ok := nn.(*ast.IfStmt)
+			if !ok {
+				return true
+			}
+			retName := ""
+			if len(is.Body.List) > 0 {
+				if ret, ok := is.Body.List[len(is.Body.List)-1].(*ast.ReturnStmt); ok && len(ret.Results) == 1 {
+					retName = types.ExprString(ret.Results[0])
+				}
+			}
+			var conds []ast.Expr
+			var flat func(e ast.Expr)
+			flat = func(e ast.Expr) {
+				if b, ok := e.(*ast.BinaryExpr); ok && b.Op == token.LOR {
+					flat(b.X)
+					flat(b.Y)
+					return
+				}
+				conds = append(conds, e)
+			}
+			flat(is.Cond)
+			for _, cnd := range conds {
+				b, ok := cnd.(*ast.BinaryExpr)
+				if !ok {
+					continue
+				}
+				l, rr := types.ExprString(b.X), types.ExprString(b.Y)
+				if strings.HasSuffix(l, ".Kind()") && (rr == "reflect.Ptr" || rr == "reflect.Pointer") && b.Op == token.NEQ && retName == "MessageTypeUnknown" {
+					nonPtr = true
+				}
+				if strings.Contains(l, "MessageName(") && rr == `""` && b.Op == token.NEQ && retName == "MessageTypeGogo" {
+					if fn := staticCallee(info, b.X.(*ast.CallExpr)); fn != nil {
+						if fam, ok := calleeFamily(fn); ok && fam == "gogo" {
+							gogoReg = true
+						}
+					}
+				}
+			}
+			return true
+		})
+		r.Ob("D4b", "deduceMsgType :: values that are not pointers are not v1/gogo messages", prog.Pos(f.Pos()), nonPtr, "expected `if … typ.Kind() != reflect.Ptr { return MessageTypeUnknown }` before the v1/gogo assertion")
+		r.Ob("D4b", "deduceMsgType :: Gogo messages are those registered with the Gogo runtime", prog.Pos(f.Pos()), gogoReg, "expected `if gogo.MessageName(m) != \"\" { return MessageTypeGogo }`: the v1 and Gogo message interfaces are identical, the registry is the only discriminator")
+	}
 }
